@@ -213,9 +213,11 @@ public:
      */
     Packet& operator=(const Packet& rhs) {
         if (this != &rhs) {
+            // Clone first: if this throws we still own a valid PDU
+            PDU* new_pdu = rhs.pdu() ? rhs.pdu()->clone() : 0;
             delete pdu_;
+            pdu_ = new_pdu;
             ts_ = rhs.timestamp();
-            pdu_ = rhs.pdu() ? rhs.pdu()->clone() : 0;
         }
         return* this;
     }
